@@ -82,7 +82,7 @@ impl<'a, 'b> MCTPSMBusPacket<'a, 'b> {
     ///
     /// Currently this just sets the total byte count.
     fn finalise(&mut self) {
-        self.smbus_header.set_byte_count(self.len() as u8 - 4);
+        self.smbus_header.set_byte_count((self.len() - 4) as u8);
     }
 }
 
